@@ -377,10 +377,14 @@ def hilbert_cpu_list(meta, scaling, select, infofile):
                 # The selected interval is narrower than the sampling (levelmax > 18):
                 # no pre-selection is possible, all files are read
                 return
-            start = xyz_centers[inds.min()] - (half_dxmin * scaling.units)
-            end = xyz_centers[inds.max()] + (half_dxmin * scaling.units)
-            bounding_box["{}min".format(c)] = start._array / box_size
-            bounding_box["{}max".format(c)] = end._array / box_size
+            # Cells finer than the sampling (levelmax > 18) can have their centre inside
+            # the interval although the neighbouring sample lies outside of it: the box
+            # then extends to the neighbouring samples
+            pad = half_dxmin + (2.0 * half_dxmin if meta["levelmax"] > 18 else 0.0)
+            start = xyz_centers[inds.min()] - (pad * scaling.units)
+            end = xyz_centers[inds.max()] + (pad * scaling.units)
+            bounding_box["{}min".format(c)] = np.maximum(start._array / box_size, 0.0)
+            bounding_box["{}max".format(c)] = np.minimum(end._array / box_size, 1.0)
 
     if new_bbox:
         return _get_cpu_list(
